@@ -21,6 +21,7 @@ import (
 
 	gerr "github.com/fatedier/golib/errors"
 
+	"github.com/fatedier/frp/pkg/util/verifhook"
 	"github.com/fatedier/frp/server/ports"
 )
 
@@ -53,6 +54,7 @@ func (tgc *TCPGroupCtl) Listen(proxyName string, group string, groupKey string,
 		tgc.groups[group] = tcpGroup
 	}
 	tgc.mu.Unlock()
+	verifhook.At("group.lookedup", "kind", "tcp", "group", group, "obj", verifhook.ID(tcpGroup), "created", !ok, "member", proxyName)
 
 	return tcpGroup.Listen(proxyName, group, groupKey, addr, port)
 }
@@ -94,6 +96,9 @@ func NewTCPGroup(ctl *TCPGroupCtl) *TCPGroup {
 func (tg *TCPGroup) Listen(proxyName string, group string, groupKey string, addr string, port int) (ln *TCPGroupListener, realPort int, err error) {
 	tg.mu.Lock()
 	defer tg.mu.Unlock()
+	defer func() {
+		verifhook.At("group.join", "kind", "tcp", "group", group, "obj", verifhook.ID(tg), "member", proxyName, "ln", verifhook.ID(ln), "n", len(tg.lns), "err", err, "key", groupKey, "param", port, "port", realPort)
+	}()
 	if len(tg.lns) == 0 {
 		// the first listener, listen on the real address
 		realPort, err = tg.ctl.portManager.Acquire(proxyName, port)
@@ -146,6 +151,7 @@ func (tg *TCPGroup) worker() {
 		if err != nil {
 			return
 		}
+		verifhook.At("group.handoff", "kind", "tcp", "obj", verifhook.ID(tg), "u", c.RemoteAddr().String())
 		err = gerr.PanicToError(func() {
 			tg.acceptCh <- c
 		})
@@ -163,6 +169,9 @@ func (tg *TCPGroup) Accept() <-chan net.Conn {
 func (tg *TCPGroup) CloseListener(ln *TCPGroupListener) {
 	tg.mu.Lock()
 	defer tg.mu.Unlock()
+	defer func() {
+		verifhook.At("group.leave", "kind", "tcp", "group", tg.group, "obj", verifhook.ID(tg), "ln", verifhook.ID(ln), "n", len(tg.lns))
+	}()
 	for i, tmpLn := range tg.lns {
 		if tmpLn == ln {
 			tg.lns = append(tg.lns[:i], tg.lns[i+1:]...)
